@@ -218,19 +218,20 @@ def firstCode (G : Grammar) (fuel : Nat) : Nat → Option FirstVec
 
 /-! ## faithful model of `follow_k` -/
 
-/-- one equation per non-terminal occurrence (`update_production_equations`) -/
+/-- one equation per non-terminal occurrence (`update_production_equations`); `rest` is the
+    right-hand side after the occurrence, compiled into parts when the equation is evaluated -/
 structure FEq where
   prod : Nat
   sym : Nat          -- 1-based symbol index (`Pos`)
   target : Nat
   source : Nat
-  parts : List KPart
+  rest : List Sym
   deriving Repr
 
 def eqsOfRhs (pi lhs : Nat) : Nat → List Sym → List FEq
   | _, [] => []
   | i, .t _ :: ss => eqsOfRhs pi lhs (i+1) ss
-  | i, .n B :: ss => ⟨pi, i+1, B, lhs, compileParts ss⟩ :: eqsOfRhs pi lhs (i+1) ss
+  | i, .n B :: ss => ⟨pi, i+1, B, lhs, ss⟩ :: eqsOfRhs pi lhs (i+1) ss
 
 def eqsFrom : Nat → List Rule → List FEq
   | _, [] => []
@@ -244,7 +245,7 @@ def followEqs (G : Grammar) : List FEq := eqsFrom 0 G.prods
 def followStep (k : Nat) (fn : Nat → TSet) : List FEq → Env → List TSet × Env
   | [], acc => ([], acc)
   | e :: es, acc =>
-    let r := kcatSetQ k (evalParts k fn e.parts) (envGet acc e.source)
+    let r := kcatSetQ k (evalParts k fn (compileParts e.rest)) (envGet acc e.source)
     let rest := followStep k fn es (envUnionAt acc e.target r)
     (r :: rest.1, rest.2)
 
